@@ -257,6 +257,83 @@ UfuncFails(op, d0, d1, out, r) ==
        [] cl = "C17a_narrow" -> ~C17a_UNarrow(op, d0, d1, out, r)
        [] cl = "C17a_value" -> ~C17a_Val(r)}
 
+
+\* ================================================================ combining integer data elsewhere ("comb")
+\* Every other place where data in different commensurable units are combined: a list/tuple of quantities
+\* in the constructor or as a ufunc operand (_coerce_iterable_units: each element .in_units(first unit),
+\* np.array of the converted elements), __setitem__ (value.to(self.units), then NumPy's assignment into
+\* the array's own dtype), np.isclose / np.allclose (_array_comp_helper: b.in_units(a.units)), and the
+\* functions that refuse mixed units (UnitInconsistencyError).
+\* A case: array a (dtype da, unit ua, values va), elements/value b (dtype de): element 1 = BaseClass(de)
+\* in unit uf, element 2 = class vb in unit us.
+CtorForms == {"ctor_list", "ctor_tuple", "ctor_arrays"}
+ListOpForms == {"ufunc_rlist", "ufunc_llist"}
+SetForms == {"setitem_q", "setitem_list", "setitem_arr"}
+CloseForms == {"isclose", "allclose"}
+RefusingForms == {"clip", "where", "concatenate", "stack", "append", "insert"}
+CombForms == CtorForms \cup ListOpForms \cup SetForms \cup CloseForms \cup RefusingForms
+SizeName(n) == CASE n = 1 -> "1" [] n = 2 -> "2" [] n = 4 -> "4" [] n = 8 -> "8" [] n = 16 -> "16" [] n = 32 -> "32"
+WantName(d) == Want(d).kind \o SizeName(Want(d).size)
+AsFloatComp(d) == IF IsInt(d) THEN IntAsFloat(d) ELSE Comp(d)
+\* NumPy result type of two operands of which at least one is floating
+ResultType(a, b) == LET cs == Max2(AsFloatComp(a), AsFloatComp(b)) IN
+                    IF IsComplex(a) \/ IsComplex(b) THEN [kind |-> "c", size |-> 2 * cs] ELSE [kind |-> "f", size |-> cs]
+\* is v * 2^k an integer, for the integer of class vc at dtype d?  (every class but "min" is odd)
+Integral(vc, d, k) == k >= 0 \/ (vc = "min" /\ 8 * Size(d) - 1 >= -k)
+\* units of the assigned / listed elements per form: <<unit of element 1, unit of element 2>>
+ElemUnits(form, uf, us) == IF form \in {"setitem_arr", "isclose", "allclose"} \cup RefusingForms THEN <<us, us>> ELSE <<uf, us>>
+\* the unit the data end up in
+TargetUnit(form, uf, us, ua) == IF form \in CtorForms \/ form = "ufunc_llist" THEN uf ELSE ua
+CombOut(form, op, da, de, vb, uf, us, ua) ==
+  LET W == WantName(de)
+      eu == ElemUnits(form, uf, us)
+      tu == TargetUnit(form, uf, us, ua) IN
+  CASE form \in CtorForms -> Ret(Want(de).kind, Want(de).size, FALSE, FALSE, TRUE)
+    [] form = "ufunc_rlist" ->
+         IF ua = uf THEN (IF op \in CmpOps THEN Ret("b", 1, FALSE, FALSE, TRUE)
+                          ELSE Ret(ResultType(da, W).kind, ResultType(da, W).size, FALSE, FALSE, TRUE))
+         ELSE LET r == UfuncOut(op, da, W, "none") IN
+              IF r.raise THEN r ELSE [r EXCEPT !.vok = IsComplex(W) => (op \in CmpOps \/ "complexop" \in Fixes)]
+    [] form = "ufunc_llist" ->
+         IF ua = uf THEN (IF op \in CmpOps THEN Ret("b", 1, FALSE, FALSE, TRUE)
+                          ELSE Ret(ResultType(da, W).kind, ResultType(da, W).size, FALSE, FALSE, TRUE))
+         ELSE LET r == UfuncOut(op, W, da, "none") IN
+              IF r.raise THEN r ELSE [r EXCEPT !.vok = IsComplex(da) => (op \in CmpOps \/ "complexop" \in Fixes)]
+    \* the converted (floating) value is assigned into the array's own dtype: truncated when that is an integer type
+    [] form \in SetForms ->
+         Ret(Kind(da), Size(da), FALSE, FALSE,
+             ~IsInt(da) \/ ((form = "setitem_q" \/ Integral(BaseClass(de), de, UnitExp(eu[1]) - UnitExp(tu)))
+                            /\ Integral(vb, de, UnitExp(eu[2]) - UnitExp(tu))))
+    [] form \in CloseForms -> Ret("b", 1, form = "allclose", FALSE, TRUE)
+    [] form \in RefusingForms -> Raise
+
+\* ---- C17 on these forms.  Constructor and list operands: same demands as for the binary ufuncs (floating,
+\* complex stays complex, not narrower, right values; no refusal - a float of at least 16 bits always
+\* exists for the elements).  __setitem__: the array keeps its dtype (NumPy's assignment semantics, not
+\* demanded otherwise), but the stored numbers must not be integer-truncated conversions: they equal the
+\* exact converted values (rounded to the array's type when it is floating); refusing is acceptable for an
+\* integer array.  isclose/allclose: the boolean answer is the one for the exactly converted values.
+\* Functions that refuse mixed units may keep refusing; if one returns, it returns floating data whose
+\* elements are exactly converted inputs.
+CombRefuseOK(form, op, da, de, uf, ua) ==
+  \/ form \in RefusingForms
+  \/ (form \in SetForms /\ IsInt(da))
+  \/ (form = "ufunc_llist" /\ ua # uf /\ (Size(da) = 32 \/ (IsInt(da) /\ Size(da) = 1)))
+CombFails(form, op, da, de, uf, ua, r) ==
+  {cl \in {"C17_refuse", "C17a_kind", "C17a_narrow", "C17a_value"} :
+     CASE cl = "C17_refuse" -> r.raise /\ ~CombRefuseOK(form, op, da, de, uf, ua)
+       [] cl = "C17a_kind" ->
+            ~r.raise /\ CASE form \in CtorForms -> ~C17a_Kind(de, r)
+                          [] form \in ListOpForms -> ~C17a_UKind(op, da, de, "none", r)
+                          [] form \in CloseForms -> r.kind # "b"
+                          [] form \in RefusingForms -> ~(r.kind \in {"f", "c"})
+                          [] OTHER -> FALSE
+       [] cl = "C17a_narrow" ->
+            ~r.raise /\ CASE form \in CtorForms -> ~C17a_Narrow(de, r)
+                          [] form \in ListOpForms -> ~C17a_UNarrow(op, da, de, "none", r)
+                          [] OTHER -> FALSE
+       [] cl = "C17a_value" -> ~C17a_Val(r)}
+
 \* ---------------------------------------------------------------- exact values for the small classes
 RECURSIVE OddPart(_)
 OddPart(n) == IF n # 0 /\ n % 2 = 0 THEN OddPart(n \div 2) ELSE n
@@ -284,4 +361,24 @@ UfuncCmp(op, vc0, vc1, k) ==
     [] op = "greater_equal" -> RLe(b[1], a[1])
     [] op = "equal" -> (REq(a[1], b[1]) /\ REq(a[2], b[2]))
     [] op = "not_equal" -> ~(REq(a[1], b[1]) /\ REq(a[2], b[2]))
+\* ---- exact values on the comb forms (small classes): element j of the data that are combined
+\* a-side classes: the BaseClass of da, or "tr" = floor of the partner's exactly converted value
+CombB(de, vb, j) == IF j = 1 THEN BaseClass(de) ELSE vb
+\* partner element j expressed in unit `to`
+CombBIn(form, de, vb, uf, us, j, to) == ConvExact(CombB(de, vb, j), UnitExp(ElemUnits(form, uf, us)[j]) - UnitExp(to))
+CombA(form, da, de, vb, uf, us, ua, va, j) ==
+  IF va[j] = "tr" THEN <<RFloorR(CombBIn(form, de, vb, uf, us, j, ua)[1]), RZero>> ELSE SmallVal(va[j])
+BinExact(op, a, b) ==
+  CASE op = "add" -> <<RAdd(a[1], b[1]), RAdd(a[2], b[2])>>
+    [] op = "subtract" -> <<RSub(a[1], b[1]), RSub(a[2], b[2])>>
+    [] op = "maximum" -> <<RMax(a[1], b[1]), RZero>>
+    [] op = "minimum" -> <<RMin(a[1], b[1]), RZero>>
+BinCmp(op, a, b) ==
+  CASE op = "less" -> RLt(a[1], b[1])
+    [] op = "greater" -> RLt(b[1], a[1])
+    [] op = "less_equal" -> RLe(a[1], b[1])
+    [] op = "greater_equal" -> RLe(b[1], a[1])
+    [] op = "equal" -> (REq(a[1], b[1]) /\ REq(a[2], b[2]))
+    [] op = "not_equal" -> ~(REq(a[1], b[1]) /\ REq(a[2], b[2]))
+Scale2(x, k) == <<RMul(x[1], Pow2(k)), RMul(x[2], Pow2(k))>>
 =============================================================================
